@@ -12,7 +12,8 @@ them, forEach steps, sub-workflow steps, a refSwitch) and initial cluster conten
    fault kind (plain Exception before the effect, kr8s.ServerError before the effect, Exception after
    the effect, ServerError after the effect, HTTP 404 / 409 / 500, hang, CancelledError, a falsy
    exception object): p fault-free passes, one pass with the fault at call i, then fault-free passes.
-   (thorough: fault PAIRS in one pass and in consecutive passes, injected latencies.)
+   Every mutating call also gets a fault that answers LATE (the other runnable steps have finished by then).
+   (thorough: fault PAIRS in one pass, injected latencies.)
    ORACLE on the faulted pass (property text, independent of the model): returns normally; virtual
    duration <= STEP_TIMEOUT; the step owning the faulted call is Retry or PermFail; no step that
    (transitively) needs a non-Ok step had its Logic invoked or made an API call; overall outcome is
